@@ -33,6 +33,7 @@ class Scheduler:
         self.finished = {t: threading.Event() for t in range(1, n_threads + 1)}
         self.accesses = {t: [] for t in range(1, n_threads + 1)}
         self.active = True
+        self.skipped = 0
 
     def gate(self, kind: str):
         tid = getattr(_local, "tid", None)
@@ -45,11 +46,17 @@ class Scheduler:
         self.go[tid].clear()
 
     def step(self, tid: int) -> bool:
-        """Release thread tid for one access; wait until it blocks again or finishes."""
-        if not self.arrived[tid].wait(timeout=5) and not self.finished[tid].is_set():
-            return False
-        if self.finished[tid].is_set() and not self.arrived[tid].is_set():
-            return False
+        """Release thread tid for one access; wait until it blocks again or finishes.
+        A thread that has already finished (the code makes fewer accesses than the
+        model's three per request) has nothing left to schedule: the step is skipped."""
+        t0 = time.time()
+        while not self.arrived[tid].is_set():
+            if self.finished[tid].is_set():
+                self.skipped += 1
+                return True
+            if time.time() - t0 > 5:
+                return False
+            time.sleep(0)
         self.arrived[tid].clear()
         self.go[tid].set()
         t0 = time.time()
@@ -92,7 +99,8 @@ def run_schedule(st: dict, out: dict) -> None:
     Engine = _cls.get("cls") or _cls.setdefault("cls", make_engine_class(sched_ref))
     engine_of = {int(k): v for k, v in st["engineOf"].items()} if isinstance(st["engineOf"], dict) else {i + 1: v for i, v in enumerate(st["engineOf"])}
     threads_ids = sorted(engine_of)
-    engines = {e: Engine(name=f"eng{e}") for e in set(engine_of.values())}
+    # all engines carry the SAME name (the default one): uniqueness across engines may not lean on engine names
+    engines = {e: Engine(name="iteration") for e in set(engine_of.values())}
     requests = st["requests"]
     names: dict = {t: [] for t in threads_ids}
     errors: list = []
@@ -163,7 +171,7 @@ def run_schedule(st: dict, out: dict) -> None:
             out["n_drift"] += 1
             if len(out["drift"]) < 3:
                 out["drift"].append({"what": "counter values differ from the model after the schedule", "real": real, "model": model, "case": case})
-        pattern_ok = all(sch.accesses[t] == ["R", "R", "W"] * requests for t in threads_ids)
+        pattern_ok = sch.skipped == 0 and all(sch.accesses[t] == ["R", "R", "W"] * requests for t in threads_ids)
         if not pattern_ok:
             out["counters"]["access_pattern_changed"] = out["counters"].get("access_pattern_changed", 0) + 1
 
@@ -193,7 +201,7 @@ def free_run(part: Part, n_rounds: int) -> None:
     sys.setswitchinterval(1e-6)
     try:
         for _ in range(n_rounds):
-            engs = [iteration.Engine(name="x"), iteration.Engine(name="y")]
+            engs = [iteration.Engine(), iteration.Engine()]      # two engines with the same (default) name
             got: list = []
             lock = threading.Lock()
 
